@@ -2207,6 +2207,9 @@ class HDKey(Key):
                     first_public = False
                 else:
                     key = key.child_private(index=index, hardened=hardened, network=network)
+        if first_public and key.is_private:
+            # A bare 'M' asks for the public master key itself
+            key = key.public()
         return key
 
     def public_master(self, account_id=0, purpose=None, multisig=None, witness_type=None, as_private=False):
